@@ -41,7 +41,7 @@ def run(ctx):
         cases = []
         pyhf.set_backend('numpy', precision='64b')
         for i in range(done, min(nspec, done + chunk) if not jax_pass else nspec + njax):
-            spec, info = gen_spec.gen_spec(rng)
+            spec, info = gen_spec.gen_spec(rng, cross_channel_stat=True)
             histo = rng.choice(['0', '2', '4p']); norm = rng.choice(['1', '4'])
             r = rng.random()
             clip_s = None if r < 0.6 else rng.choice([0.0, -1.0, 2.0, 30.0])
